@@ -573,3 +573,79 @@ def plant_pattern_form(doc, rng, kind):
         page2 = doc.objs[rng.choice(doc.pages)]
         form2 = make_form(doc, rng, {"Pattern": {"PS": pat}}, b"/Pattern cs /PS scn 0 0 3 3 re f")
         add_resource(doc, page2, "XObject", "XP2", form2, b"q /XP2 Do Q")
+
+
+# ---- marked content with property lists (§14.6; deep_clone_op: BeginMarkedContent / MarkedContentPoint) -------------
+
+MC_KINDS = ["bmc-mp", "bdc-inline", "dp-inline", "bdc-ref", "dp-ref", "bdc-ref-shared", "bdc-ref-chain", "form-properties"]
+# the property list cannot be copied (a reference in it designates no object): the import must fail, or copy the sequence as it is
+MC_BAD_KINDS = ["bdc-dangling", "dp-dangling", "bdc-dangling-nested", "bdc-ref-to-dangling", "dp-ref-to-dangling", "bdc-dangling-second"]
+
+
+def append_ops(doc, rng, page, ops):
+    """append operations to a page's content (rewritten as one stream)"""
+    pn = [n for n in doc.pages if doc.objs[n] is page][0]
+    i = doc.pages.index(pn)
+    content = doc.expect[i]["content"] + b"\n" + ops
+    doc.expect[i]["content"] = content
+    page["Contents"] = doc.add(enc_stream(rng, {}, content))
+    return i
+
+
+def plant_marked_content(doc, rng, kind):
+    """marked-content operators on one page (two for the shared kind) -> indices of the pages changed.
+    A property list is a name (of the /Properties resources) or an inline dictionary; the library's reader also accepts
+    references inside the inline dictionary and the importer copies what they designate."""
+    doc.features.add("mc:" + kind)
+    pi = rng.randrange(len(doc.pages))
+    page = doc.objs[doc.pages[pi]]
+    draw = rng.choice([b"0 0 m 10 10 l S", b"0 0 3 3 re f", b"1 w 2 2 m 5 9 l S"])
+    missing = doc.n + 60 + rng.randrange(20)
+    plist = lambda: doc.add({"Kind": Name("PropList"), "V": [1, 2.5, b"s"], "Lang": b"en"})
+    if kind == "bmc-mp":
+        ops = b"/Artifact BMC " + draw + b" EMC /Pt MP"
+    elif kind == "bdc-inline":
+        ops = b"/Span << /MCID %d /Lang (en) /A [1 2.5 /N (s)] /D << /E true /F null >> >> BDC " % rng.randrange(9) + draw + b" EMC"
+    elif kind == "dp-inline":
+        ops = b"/Pt << /MCID %d /B /Nm >> DP " % rng.randrange(9) + draw
+    elif kind == "bdc-ref":
+        ops = b"/Span << /K %d 0 R /MCID 1 >> BDC " % plist().num + draw + b" EMC"
+    elif kind == "dp-ref":
+        ops = b"/Pt << /K [%d 0 R 7] >> DP " % plist().num + draw
+    elif kind == "bdc-ref-shared":
+        # the same object named by the property lists of two pages (and twice on one): copied once
+        r = plist()
+        ops = b"/Span << /K %d 0 R >> BDC " % r.num + draw + b" EMC /Pt << /K %d 0 R >> DP" % r.num
+        pj = rng.randrange(len(doc.pages))
+        if pj != pi:
+            append_ops(doc, rng, doc.objs[doc.pages[pj]], b"/Span << /K %d 0 R >> BDC 0 0 1 1 re f EMC" % r.num)
+    elif kind == "bdc-ref-chain":
+        leaf = doc.add(enc_stream(rng, {"Kind": Name("Leaf")}, b"leaf data"))
+        mid = doc.add({"Next": leaf, "Back": None})
+        ops = b"/Span << /K %d 0 R >> BDC " % mid.num + draw + b" EMC"
+    elif kind == "form-properties":
+        # a named property list in the resources of a form (copied with the form's whole resource dictionary)
+        oc = doc.add({"Type": Name("OCG"), "Name": b"Layer"})
+        form = make_form(doc, rng, {"Properties": {"MC0": oc if rng.random() < 0.6 else {"Type": Name("OCG"), "Name": b"Direct"}}},
+                         b"/OC /MC0 BDC 0 0 1 1 re f EMC /Pt /MC0 DP")
+        add_resource(doc, page, "XObject", "XM", form, b"q /XM Do Q")
+        return [pi]
+    elif kind == "bdc-dangling":
+        ops = b"/Span << /K %d 0 R >> BDC " % missing + draw + b" EMC"
+    elif kind == "dp-dangling":
+        ops = b"/Pt << /K %d 0 R >> DP " % missing + draw
+    elif kind == "bdc-dangling-nested":
+        ops = b"/Span << /MCID 2 /A [ 1 << /K %d 0 R >> ] >> BDC " % missing + draw + b" EMC"
+    elif kind == "bdc-ref-to-dangling":
+        r = doc.add({"Kind": Name("PropList"), "Gone": Ref(missing)})
+        ops = b"/Span << /K %d 0 R >> BDC " % r.num + draw + b" EMC"
+    elif kind == "dp-ref-to-dangling":
+        r = doc.add({"Kind": Name("PropList"), "Gone": [Ref(missing)]})
+        ops = b"/Pt << /K %d 0 R >> DP " % r.num + draw
+    elif kind == "bdc-dangling-second":
+        # a good property list first, then one that cannot be copied
+        ops = b"/Span << /K %d 0 R >> BDC " % plist().num + draw + b" EMC /Span << /K %d 0 R >> BDC " % missing + draw + b" EMC"
+    else:
+        raise ValueError(kind)
+    append_ops(doc, rng, page, ops)
+    return [pi]
